@@ -654,10 +654,10 @@ def rule_shape_coverage(ctx, rep, cfgs):
                     pass
                 if s.edges and "'TABLE'" not in txt and re.search(r"'path': '_TABLE_\d+'", txt.replace("loop_test", "", 1)):
                     c['lut_test'] += 1
-                if "'op': '!='" in txt and "'name': 'byte'" not in txt and s.edges:
+                if s.edges and re.search(r"'op': '!=', 'l': \{'k': 'path', 'path': 'byte'", txt):
                     c['cmp_exception'] += 1
         rep.analysed.setdefault('shapes', {})[cfg] = c
-        for shape in ('self_loop', 'no_self_loop', 'early', 'late', 'eoi_edge', 'eoi_only', 'prefix_guard', 'no_prefix_guard', 'jump_table', 'if_chain', 'skip_leaf', 'callback_leaf', 'byte_mode', 'str_mode'):
+        for shape in ('self_loop', 'no_self_loop', 'early', 'late', 'eoi_edge', 'eoi_only', 'prefix_guard', 'no_prefix_guard', 'jump_table', 'if_chain', 'lut_test', 'cmp_exception', 'two_luts', 'skip_leaf', 'callback_leaf', 'byte_mode', 'str_mode'):
             rep.inst(rid, '%s:%s' % (cfg, shape), detail=c[shape])
             if c[shape] == 0:
                 rep.viol(rid, 'shape-missing:%s:%s' % (cfg, shape), 'no captured definition instantiates the `%s` shape under %s: the corpus no longer covers this template branch' % (shape, cfg), 'corpus')
